@@ -5,6 +5,7 @@ From Coq Require Import List Bool Arith NArith.
 Import ListNotations.
 From Supp Require Import Model.PyCore Model.Reach Model.Sem Model.SemX
   Proofs.ReachProofs Proofs.ReachCorollaries Proofs.SemXProofs.
+From Supp Require Import Model.ReachX Proofs.ReachXBridge.
 
 (* Every run of every command (no restriction: return, break, continue, exceptions raised
    anywhere and caught by any enclosing try, finally clauses), from any state whose bound names
@@ -39,3 +40,18 @@ Example C01_example :
   exists p' ds', runX 20 ex_brk renv0 [1; 0]%nat = DoneX p' [(10, Some 2)] XN ds' /\
   visible ex_brk aenv0 10 = true.
 Proof. eexists. eexists. split; vm_compute; reflexivity. Qed.
+
+(* Since /repo fixes F62/F62b `break` and `continue` are flow edges: supp's analysis is [anx]/[seenx]
+   of Model/ReachX.v (tied to the code by the (I) correspondence of this check). It only ADDS
+   alternatives to the analysis the theorems above speak about ... *)
+Theorem C01_exit_edges_add_alternatives : forall c s t r, sub s t -> subl (seen c s r) (seenx c t r).
+Proof. exact seen_sub_seenx. Qed.
+Print Assumptions C01_exit_edges_add_alternatives.
+
+(* ... hence the visibility theorem holds of it: every run of every command with any abrupt exits,
+   every read that finds its name bound - the name is visible (offered) and not reported E02. *)
+Theorem C01_visible_any_exit_x : forall fuel c ds p' tr o ds' r d,
+  runX fuel c renv0 ds = DoneX p' tr o ds' -> In (r, Some d) tr ->
+  visiblex c aenv0 r = true /\ e02x c aenv0 r = false.
+Proof. exact visiblex_any_exit. Qed.
+Print Assumptions C01_visible_any_exit_x.
